@@ -499,6 +499,9 @@ fn check(case: &Case) -> Verdict {
                 ensure!((r.length() - total).abs() <= 1e-12 * total, "C04/reversed/length", "reversed length {:e} vs {total:e}", r.length());
                 ensure!(r.is_closed() == cur.closed, "C04/reversed/closedness", "reversed() closedness {} vs {}", r.is_closed(), cur.closed);
                 ensure!(r.tol() == tol, "C04/reversed/tol", "reversed() tol changed");
+                if let Err(f) = derived_curve2_consistent("C04/reversed", &r) {
+                    return Verdict::Fail(f);
+                }
                 let lens = cur.curve.lengths().clone();
                 for (i, l) in lens.iter().enumerate() {
                     for l in [*l, if i + 1 < lens.len() { 0.5 * (l + lens[i + 1]) } else { *l }] {
